@@ -393,7 +393,7 @@ def main(argv=None):
 
     merged = {"evaluations": 0, "nontrivial": set(), "hist": Counter(),
               "samples": [], "rejected": 0, "excluded_known": Counter(),
-              "replayed": 0, "shards": 0, "capped": 0, "exh_done": 0}
+              "replayed": 0, "shards": 0, "capped": 0, "exh_done": 0, "_pool": {}}
     violations = []
 
     def merge(res):
@@ -402,9 +402,8 @@ def main(argv=None):
         merged["hist"].update(res["hist"])
         merged["rejected"] += res["rejected"]
         merged["excluded_known"].update(res["excluded_known"])
-        for s in res["samples"]:
-            if len(merged["samples"]) < 8:
-                merged["samples"].append(s)
+        for s in res["samples"][:2 if res.get("kind") == "exh" else 1]:
+            merged["_pool"].setdefault(res.get("kind") or "replay", []).append(s)
         if res.get("capped"):
             merged["capped"] += 1
         for v in res["violations"]:
@@ -475,6 +474,11 @@ def main(argv=None):
     extra = {}
     if hasattr(mod, "extra_evidence"):
         extra = mod.extra_evidence(merged)
+    pool = merged["_pool"]
+    for kind, quota in (("replay", 1), ("exh", 3), ("gen", 8)):
+        for s in pool.get(kind, [])[:quota]:
+            if len(merged["samples"]) < 8:
+                merged["samples"].append(s)
     if len(merged["nontrivial"]) and not merged["samples"]:
         merged["samples"] = [{"note": "no sample retained"}]
     ev = _evidence(mod, args.tier, seed, merged, wall, len(bytag), extra)
